@@ -194,7 +194,7 @@ def job(j):
 
 def run(out):
     rng = random.Random(out.seed)
-    reps = 1 if out.tier == 'quick' else 6
+    reps = 1 if out.tier == 'quick' else 40
     jobs = []
     for r in range(reps):
         for i in range(len(CHARSETS)):
